@@ -1,0 +1,84 @@
+//go:build verif
+
+// Contracts for package performance (machine-checked by /verif/engine; comment-only file).
+// float64 values are treated as real numbers (listed assumption): rounding of floating point sums and
+// products is outside what these contracts decide.
+package performance
+
+// Loading the universe reads a YAML file (external decoder): trusted to touch only the commodity registry.
+//@ func LoadUniverseFromFile
+//@   trusted
+//@   requires reg != nil
+//@   modifies reg.index[*]
+//
+// The daily performance factor: with v0/v1 the sums of the values at the start/end of the day, inflow
+// and outflow the external flows of the day (outflows are negative numbers):
+//     perf = 1                                  if nothing changed and nothing flowed
+//     perf = (v1 - outflow) / (v0 + inflow)     otherwise
+// Ghosts s0, s1, fin, fout are the sums the four loops compute (running sums over the maps).
+//@ def perfOf(v0 float64, v1 float64, inflow float64, outflow float64) float64 := (v0 == v1 && inflow == 0.0 && outflow == 0.0) ? 1.0 : (v1 - outflow) / (v0 + inflow)
+//@ func Performance
+//@   requires dpv != nil
+//@   modifies nothing
+//@   ghost s0 real = 0.0
+//@   ghost s1 real = 0.0
+//@   ghost fin real = dpv.PortfolioInflow
+//@   ghost fout real = dpv.PortfolioOutflow
+//@   loop 1 ghost-end s0 := v0
+//@   loop 2 ghost-end s1 := v1
+//@   loop 3 ghost-end fin := inflow
+//@   loop 4 ghost-end fout := outflow
+//@   ensures [C20] @formula: result == perfOf(s0, s1, fin, fout)
+//@   ensures [C20] @noflows: len(dpv.Inflow) == 0 && len(dpv.Outflow) == 0 && dpv.PortfolioInflow == 0.0 && dpv.PortfolioOutflow == 0.0 && s0 != s1 ==> result == s1 / s0
+//@   loop 1 invariant s0 == v0 && s1 == 0.0 && fin == dpv.PortfolioInflow && fout == dpv.PortfolioOutflow
+//@   loop 2 invariant s0 == v0 && s1 == v1 && fin == dpv.PortfolioInflow && fout == dpv.PortfolioOutflow
+//@   loop 3 invariant s0 == v0 && s1 == v1 && fin == inflow && fout == dpv.PortfolioOutflow && (len(dpv.Inflow) == 0 ==> inflow == dpv.PortfolioInflow)
+//@   loop 4 invariant s0 == v0 && s1 == v1 && fin == inflow && fout == outflow && (len(dpv.Outflow) == 0 ==> outflow == dpv.PortfolioOutflow) && (len(dpv.Inflow) == 0 ==> inflow == dpv.PortfolioInflow)
+//
+// The factor is 1 (a return of 0%) when prices are unchanged and the value only changed by external
+// deposits and withdrawals (v1 = v0 + inflow + outflow), and end value over start value without flows.
+//@ lemma perf_flow_only [C20]: forall v0 float64, fin float64, fout float64 :: v0 + fin != 0.0 ==> perfOf(v0, v0 + fin + fout, fin, fout) == 1.0
+//@ lemma perf_no_flow [C20]: forall v0 float64, v1 float64 :: v0 != v1 ==> perfOf(v0, v1, 0.0, 0.0) == v1 / v0
+//
+// Perf (day end): days outside the reporting window are ignored; inside, the running product is
+// multiplied by the day's factor; on a period end day the percentage 100*(product-1) is printed and the
+// product restarts at 1 - so a period's return is the chained product of its days.
+//@ func Perf$1
+//@   requires d != nil && d.Performance != nil && ds != nil
+//@   modifies running
+//@   callback Performance=0
+//@   callback Printf=1
+//@   ensures result == nil
+//@   ensures [C20] @outside: !(old(part.span.Start) <= d.Date && d.Date <= old(part.span.End)) ==> running == old(running) && tlen() == old(tlen())
+//@   ensures [C20] @chain: (old(part.span.Start) <= d.Date && d.Date <= old(part.span.End)) && !(d in ds) ==> tlen() == old(tlen()) + 1 && running == old(running) * tres("Performance", old(tlen()))
+//@   ensures [C20] @report: (old(part.span.Start) <= d.Date && d.Date <= old(part.span.End)) && (d in ds) ==> tlen() == old(tlen()) + 2 && running == 1.0
+//@        && typeIs(targ("Printf", 1, old(tlen()) + 1)[1], "float64") && dyn(targ("Printf", 1, old(tlen()) + 1)[1], "float64") == 100.0 * (old(running) * tres("Performance", old(tlen())) - 1.0)
+//
+// ComputeFlows: the portfolio-level flow accumulator restarts at zero EVERY day, and the day's flows are
+// collected into the day's own performance record (created when missing); at day end the accumulated
+// portfolio flow is split by sign.
+//@ func (*Calculator).ComputeFlows$1
+//@   requires d != nil
+//@   modifies portfolioFlows, performance
+//@   ensures [C20] @reset: result == nil && portfolioFlows == 0.0 && performance != nil && (d.Performance != nil ==> performance == d.Performance) && (d.Performance == nil ==> fresh(performance))
+//
+//@ func (*Calculator).ComputeFlows$3
+//@   requires d != nil && performance != nil
+//@   modifies performance.PortfolioInflow, performance.PortfolioOutflow, d.Performance
+//@   ensures [C20] @split: result == nil && d.Performance == performance && performance.PortfolioInflow == (portfolioFlows > 0.0 ? portfolioFlows : 0.0) && performance.PortfolioOutflow == (portfolioFlows < 0.0 ? portfolioFlows : 0.0)
+//
+// ComputeValues: the running value per commodity is the sum of the VALUES of the postings on portfolio
+// accounts (asset/liability accounts passing the account filter) in commodities passing the commodity
+// filter - exactly what `knut balance -v` sums for those accounts; other postings do not count.
+//@ func (*Calculator).ComputeValues$1
+//@   requires d != nil
+//@   modifies d.Performance, d.Performance.V0
+//@   ensures [C20] result == nil && d.Performance != nil && d.Performance.V0 == prev && (old(d.Performance) != nil ==> d.Performance == old(d.Performance))
+//
+//@ def isPortfolio(calc *Calculator, p *posting.Posting) bool := calc.CommodityFilter(p.Commodity) && isAL(p.Account) && calc.AccountFilter(p.Account)
+//@ func (*Calculator).ComputeValues$2
+//@   requires p != nil && validAccount(p.Account) && calc != nil && values != nil
+//@   pure CommodityFilter, AccountFilter
+//@   modifies values[*]
+//@   ensures [C20] @counted: result == nil && (isPortfolio(calc, p) ==> values[amounts.Key{Commodity: p.Commodity}] == old(values[amounts.Key{Commodity: p.Commodity}]) + p.Value)
+//@   ensures [C20] @others: forall k amounts.Key :: {key(values, k)} (!isPortfolio(calc, p) || k != amounts.Key{Commodity: p.Commodity}) ==> values[k] == old(values[k]) && ((k in values) <==> old(k in values))
